@@ -1,6 +1,6 @@
 """Translator anchors for fedjax/core/metrics.py: every Metric.evaluate_example
 and get_target_weight (C14); PerDomainMetric.evaluate_example + apply_mask are matched structurally."""
-from lib.mtr import A_metric, A_target_weight, A_per_domain
+from lib.mtr import A_metric, A_target_weight, A_per_domain, A_no_hidden_inputs
 
 K = ('k', 'k', 'int')
 MASKED = ('masked_target_values', 'masked', 'il')
@@ -12,6 +12,7 @@ MODULES = {
         'src': 'fedjax/core/metrics.py',
         'preamble': 'From Coq Require Import QArith.\nFrom FV Require Import Model.C14_Prims.\n',
         'items': [
+            A_no_hidden_inputs(),
             A_target_weight('gen_get_target_weight'),
             A_metric('CrossEntropyLoss', 'gen_cross_entropy', [], 'int', 'fv', 'qs', ce_type='q'),
             A_metric('Accuracy', 'gen_accuracy', [], 'int', 'fv', 'ms'),
